@@ -58,6 +58,38 @@ CHECKS = {
    note=TB + "Division theorem is partial: number/quantity keeps the unit in the code (pinned by its tests). Decimal context signals and "
         "complex roots are outside the exact model. Axioms: none.",
    tech="Rocq proof: case analysis over the operator-dispatch model + vm_compute correspondence on the operand matrix", ref="DESIGN.md §4 C03"),
+ "C04": dict(
+   text="Theorems over the conversion model (faithful Gallina model of conversions.py: ratio table, DFS path finder with exponent reduction, "
+        "heuristic planner, plan application; every Python exception an explicit error value): C04_apply_plan_affine, C04_find_path_sound "
+        "(every path found multiplies to size(start)/size(end), for every table consistent with a size assignment, every fuel, every visited set), "
+        "C04_certified (a conversion whose plan passes the planner-independent certificate returns m*size(start)/size(end) exactly, prefixes included, "
+        "for all tables, sizes, magnitudes), C04_refuted_uncertified (the uncertified statement is false of the model; witness replayed on the code). "
+        "Per run: kernel-checked model=implementation on conversions of the shipped table (1e-11) and of fresh synthetic exactly-consistent unit systems "
+        "(bit-exact, with the hypotheses of C04_certified discharged by vm_compute on the exported table), certificate bit and diagnosis per case, exact "
+        "rational size oracle solved from the intercepted declarations.",
+   note=TB + "Partial: the planner itself is not proved to emit only certifiable plans (it does not: known findings planner-sign-heuristic, "
+        "planner-uncertified, keyed by the Coq diagnosis of the model's plan, and the inconsistent ton-of-refrigeration edge). On the shipped float table "
+        "consistency holds only within the residuals C09 bounds; rounding is measured at 1e-11 against the exact model. Axioms: none.",
+   tech="Rocq proof: path-finder soundness by induction on fuel + plan certificate soundness over Q; vm_compute correspondence and certificate evaluation",
+   ref="DESIGN.md §4 C04"),
+ "C05": dict(
+   text="Theorems C05_plan_independent_of_magnitude, C05_linear, C05_additive, C05_zero, C05_sign (for EVERY offset-free plan, whatever the planner did), "
+        "C05_identity (own unit, any prefix, any table), C05_roundtrip and C05_route_independent (for certified conversions, all tables/sizes). "
+        "Per run: every conversion compared with the model in the kernel; the five relations evaluated on the implementation for instances (a,b,c,m,k) "
+        "on the shipped table and on synthetic exactly-consistent systems.",
+   note=TB + "Round trip / route independence inherit C04's certificate hypothesis (same recorded planner findings). Float rounding measured "
+        "(1e-12 linearity, 1e-5/degree shipped, 1e-12 synthetic). Axioms: none.",
+   tech="Rocq proof: affine form of plan application + corollaries of the certificate theorem; vm_compute correspondence", ref="DESIGN.md §4 C05"),
+ "C07": dict(
+   text="Theorems C07_find_path_errors, C07_inline_paths_errors, C07_direct_only_cnf_partial (the path finder, the inliner and every direct conversion "
+        "fail only with ConversionNotFound, or by exhausting the recursion budget), C07_eq_without_conversion / C07_order_without_conversion (== False, "
+        "ordering TypeError when no conversion exists). Per run: regenerated obligation that conversions.py contains no assert; kernel-checked "
+        "model=implementation including the exception class; python vs python -O differential on every case; disconnected, partially connected and "
+        "long-chain systems.",
+   note=TB + "Partial: unreachability of KeyError/IndexError/ValueError/ZeroDivisionError inside the planner's bookkeeping (_clean_pop/_clean_remove) "
+        "is not yet a theorem; those raise sites are explicit in the model and the correspondence compares exception classes on every case. RecursionError "
+        "(interpreter stack) is outside the fuelled model. Axioms: none.",
+   tech="Rocq proof: error-class analysis of the path finder by induction + dispatch model; vm_compute correspondence; -O differential", ref="DESIGN.md §4 C07"),
  "C06": dict(
    text="Theorems C06_mul/div/pow (unconditional) and C06_addsub/eq/lt/conversion_preserves_value (for every conversion oracle sound "
         "for the sizes): the value magnitude*prefix*size of every result is the operation on the operands' values, for all sizes, "
